@@ -2,6 +2,13 @@
    Theorem statements only; every proof is `exact <lemma of Proofs/>`. *)
 From PB Require Import Common Telegram CodecOracle DecodeSpec C09Proofs.
 
+(* The delimiters the code uses (regenerated from src/consts.rs on every run) are the ones the
+   PROFIBUS frame format prescribes. *)
+Theorem C09_standard_delimiters :
+  SD1 = 16 /\ SD2 = 104 /\ SD3 = 162 /\ SD4 = 220 /\ ED = 22 /\ SC = 229.
+Proof. exact standard_delimiters. Qed.
+Print Assumptions C09_standard_delimiters.
+
 (* Function codes round-trip for every request/response combination. *)
 Theorem C09_fc_roundtrip : forall fc : fcode, fc_from_byte (fc_to_byte fc) = Some fc.
 Proof. exact fc_roundtrip. Qed.
